@@ -31,6 +31,15 @@ def jobs(tier):
             for g in ['temp', 'cont prefix', 'cont bare', 'run', 'tag A']:
                 js.append({'name': 'build-clean 3 lines %s/%s CRLF' % (f, g), 'harness': (H, 'h_clean'),
                            'params': {'nlines': 3, 'menu_name': 'small', 'fixed': [f, g], 'history': 'build-clean', 'le_choices': (b'\r\n',)}})
+    # text inside a write / run / empty block that looks like a temp directive, next to a hand-written file of that name
+    for first in ('write', 'run', 'empty'):
+        for hist in ('build-clean', 'clean'):
+            js.append({'name': '%s %s block containing a temp look-alike, hand-written t.tmp' % (hist, first), 'harness': (H, 'h_clean'),
+                       'params': {'nlines': 2, 'menu_name': 'small', 'fixed': [first, 'cont looks-like-temp'], 'history': hist, 'pre_temp_len': 2}})
+    # the output removed by hand between build and clean: the temp files are still build's
+    for sc in (['temp', 'cont prefix'], ['text', 'temp'], ['temp', 'text']):
+        js.append({'name': 'build, output removed by hand, clean: ' + '/'.join(sc), 'harness': (H, 'h_clean'),
+                   'params': {'nlines': len(sc), 'menu_name': 'small', 'fixed': sc, 'history': 'build-rmout-clean'}})
     # a directory sitting at the temp target: clean cannot remove it, must not fail, and still removes what comes later
     for sc in (['temp'], ['temp', 'cont prefix'], ['temp', 'text'], ['text', 'temp']):
         for hist in ('clean', 'build-clean-clean'):
@@ -60,9 +69,33 @@ ASSUMPTIONS = ['D1-D12; temp targets are regular files in the source directory',
 COVERS_REQUIRED = ['clean_after_build_ok', 'clean_after_build_failed', 'clean_after_nothing']
 
 
+def replay_rmout(v):
+    """build, remove the output by hand, clean: the temp file must be gone"""
+    import os, shutil, subprocess
+    d = v['data']
+    model = d['model']
+    root, work, bind, res = ppreplay.materialise(d, model)
+    cli = ppreplay.cli_path()
+    e = dict(os.environ)
+    e['PATH'] = bind + ':' + e.get('PATH', '')
+    e.pop('TXTPP_FILE', None)
+    r1 = subprocess.run([cli, '-q', '-j', '1', '-s', os.path.join(bind, 'recsh') + ' -c', 'a.txt.txtpp'], cwd=work, env=e, capture_output=True)
+    had_temp = os.path.exists(os.path.join(work, 't.tmp'))
+    if os.path.exists(os.path.join(work, 'a.txt')):
+        os.remove(os.path.join(work, 'a.txt'))
+    r2 = subprocess.run([cli, 'clean', '-q', '-j', '1', 'a.txt.txtpp'], cwd=work, env=e, capture_output=True)
+    left = sorted(os.listdir(work))
+    shutil.rmtree(root, ignore_errors=True)
+    bad = r1.returncode == 0 and had_temp and ('t.tmp' in left or r2.returncode != 0)
+    return bad, {'source': repr(ppreplay.conc(d['source'], model)), 'build_rc': r1.returncode, 'temp file after build': had_temp,
+                 'clean_rc': r2.returncode, 'left after clean': left}
+
+
 def replay(native, v):
     d = v['data']
     hist = d.get('history', 'build-clean')
+    if hist == 'build-rmout-clean':
+        return replay_rmout(v)
     steps = {'build-clean': [((), True), (('clean',), True)], 'clean': [(('clean',), True)],
              'build-clean-clean': [((), True), (('clean',), True), (('clean',), True)]}[hist]
 
